@@ -2,6 +2,7 @@
 
 namespace tulz {
 void Thread::start(Runnable *runnable) {
+    m_isFinished = false; // a joined Thread can be started again
     m_thread = std::thread([this, runnable] {
         runnable->run();
         delete runnable;
